@@ -204,6 +204,7 @@ type cfgKnobs struct {
 	SecondJob   bool
 	Replacement string
 	Modulus     int
+	RelPaths    bool // relative file paths (file SD, rule files)
 }
 
 func baseKnobs() cfgKnobs {
@@ -229,11 +230,18 @@ func (k cfgKnobs) yaml(style int) string {
 		}
 		fmt.Fprintf(&b, "  basic_auth:\n    username: u\n    password: '%s'\n", k.Password)
 		fmt.Fprintf(&b, "  static_configs:\n  - targets: ['%s']\n", k.SDTarget)
-		fmt.Fprintf(&b, "  file_sd_configs:\n  - files: ['/etc/x/*.json']\n    refresh_interval: %s\n", k.SDRefresh)
+		sdFiles := "/etc/x/*.json"
+		if k.RelPaths {
+			sdFiles = "sd/*.json"
+		}
+		fmt.Fprintf(&b, "  file_sd_configs:\n  - files: ['%s']\n    refresh_interval: %s\n", sdFiles, k.SDRefresh)
 		fmt.Fprintf(&b, "  relabel_configs:\n  - source_labels: [env]\n    regex: '%s'\n    action: %s\n", k.Regex, k.RegexAction)
 		fmt.Fprintf(&b, "  - source_labels: [__address__]\n    modulus: %d\n    target_label: shard\n    action: hashmod\n", k.Modulus)
 		fmt.Fprintf(&b, "  - source_labels: [a]\n    regex: (.+)\n    target_label: b\n    replacement: %s\n", k.Replacement)
 		fmt.Fprintf(&b, "  metric_relabel_configs:\n  - source_labels: [__name__]\n    regex: '%s'\n    action: drop\n", k.MetricRegex)
+	}
+	if k.RelPaths {
+		b.WriteString("rule_files:\n- rules/*.yml\n")
 	}
 	b.WriteString("scrape_configs:\n")
 	job("j1")
@@ -297,7 +305,7 @@ func cfgHashChild(file string) int {
 
 func runCfgHash(a Args) *Result {
 	res := newResult("cfghash", a.seed, a.tier)
-	res.Rule = "a base configuration (global, two-rule relabeling, metric relabeling, basic auth, static + file SD, remote write with bearer token) under random knob settings; for each: every single-setting edit of the catalogue (scalars, list entries, regexes incl. anchoring-only changes, secrets, SD options, added job), three re-formattings and an external-label edit; the parsed config is dumped by reflection (unexported fields included) and the Lean model of hashstructure must reproduce ConfigHash; every 4th configuration is also hashed in a child process; non-trivial = an edit pair; distinct by configuration text"
+	res.Rule = "a base configuration (global, two-rule relabeling, metric relabeling, basic auth, static + file SD, remote write with bearer token) under random knob settings; for each: every single-setting edit of the catalogue (scalars, list entries, regexes incl. anchoring-only changes, secrets, SD options, added job), three re-formattings and an external-label edit; the parsed config is dumped by reflection (unexported fields included) and the Lean model of hashstructure must reproduce ConfigHash; every configuration is also loaded from files in two different directories (relative file paths in half of them), every 4th is also hashed in a child process; non-trivial = an edit pair; distinct by configuration text"
 	rng := NewRng(a.seed)
 	n := 6
 	if a.tier == "thorough" {
@@ -364,6 +372,9 @@ func runCfgHash(a Args) *Result {
 		if r.Chance(30) {
 			k.SecondJob = true
 		}
+		if r.Chance(50) {
+			k.RelPaths = true
+		}
 		baseText := k.yaml(0)
 		h0 := addDump(baseText)
 		if h0 == "" {
@@ -399,6 +410,21 @@ func runCfgHash(a Args) *Result {
 				res.ImplViol = capViol(res.ImplViol, Violation{Property: "C16", Clause: "extlabels", Signature: "C16/extlabels",
 					What: "an external-label edit changes the configuration hash", Case: full}, 2)
 			}
+		}
+		// the coordinator loads the file from its own directory, the sidecar gets the text: the same
+		// content must hash alike wherever it was read from
+		for di, dir := range []string{fmt.Sprintf("%s/cfgdir-%d-a", work, os.Getpid()), fmt.Sprintf("%s/cfgdir-%d-b/nested", work, os.Getpid())} {
+			_ = os.MkdirAll(dir, 0755)
+			f := dir + "/prometheus.yml"
+			_ = os.WriteFile(f, []byte(baseText), 0644)
+			cm := prom.NewConfigManager()
+			err := cm.ReloadFromFile(f)
+			_ = os.RemoveAll(fmt.Sprintf("%s/cfgdir-%d-%s", work, os.Getpid(), []string{"a", "b"}[di]))
+			if err != nil || cm.ConfigInfo().ConfigHash != h0 {
+				res.ImplViol = capViol(res.ImplViol, Violation{Property: "C16", Clause: "location", Signature: "C16/location",
+					What: "the same configuration text hashes differently when it is loaded from a file in " + dir, Case: map[string]interface{}{"case": map[string]string{"a": baseText}}}, 2)
+			}
+			res.count("loaded_from_file")
 		}
 		if i%4 == 0 {
 			f := fmt.Sprintf("%s/cfg-%d-%d.yaml", work, os.Getpid(), i)
